@@ -536,7 +536,12 @@ class BuiltinMixin:
         if b is not None:
             x, y = self.split(b, V.is_dict(recv))
             if x is not None:
-                self.unsupported(x, 'item assignment on an immutable dict value')
+                # a mapping modelled as a plain value is one the contract promises not to mutate (a mutable one is
+                # modelled as an object whose $val is in `modifies`): writing into it is a frame breach, not a
+                # limit of the engine.  The obligation can only be discharged when the path is infeasible.
+                self.oblige(x, '%s/frame:no-item-assignment-into-a-mapping-the-contract-receives-by-value'
+                            % x.ghost.get('$top', x.fn), z3.BoolVal(False), 'frame')
+                out.append((x, 'ok', NONE))
             if y is not None:
                 x2, y2 = self.split(y, z3.And(V.is_obj(recv), self.stubs.mapping_like(self, recv)))
                 if x2 is not None:
